@@ -18,8 +18,10 @@ fn finding(sig: &str, msg: String) -> Finding {
     Finding { sig: sig.to_string(), msg }
 }
 
+/// 0.0001 native units, plus one ulp: the program compares a truncated I80F48 product with the truncated
+/// constant, so an exact value in [0.0001, 0.0001 + 2^-48) can still pass its test
 pub fn threshold_0001() -> Q {
-    q_ratio(1, 10_000)
+    q_ratio(1, 10_000) + q_bits(1)
 }
 
 /// number of truncating fixed-point operations per op kind (for the dust budget)
@@ -140,6 +142,9 @@ pub struct C02State {
     pub abandoned: BTreeMap<Pubkey, (BigInt, BigInt)>,
     pub closures: u64,
     pub max_abandoned_value: f64,
+    pub ever_held: std::collections::BTreeSet<Pubkey>,
+    pub close_bank_accepted: u64,
+    pub close_bank_accepted_after_activity: u64,
 }
 
 fn sums_of(s: &StoreSnap, k: &Pubkey) -> (BigInt, BigInt) {
@@ -148,8 +153,43 @@ fn sums_of(s: &StoreSnap, k: &Pubkey) -> (BigInt, BigInt) {
 
 pub fn c02_step(st: &mut C02State, pre: &StoreSnap, post: &StoreSnap, step: &Step) -> Vec<Finding> {
     let mut out = vec![];
+    // remember which banks were ever held by anybody (for the close_bank statistics)
+    for a in post.accts.values() {
+        for p in &a.positions {
+            if p.a_bits > 0 || p.l_bits > 0 {
+                st.ever_held.insert(p.bank);
+            }
+        }
+    }
     if !step.ok {
         // a failed transaction must leave the ledger untouched
+        return out;
+    }
+    if step.probe {
+        // what-if close_bank accepted by the program on a clone of the store: the consequence clause says no
+        // account may hold more than (sub-0.0001-unit) dust in that bank
+        if let (Op::CloseBank { .. }, Some(k)) = (&step.op, step.ixs.first().and_then(|ix| ix.accounts.get(1)).map(|m| m.pubkey)) {
+            st.close_bank_accepted += 1;
+            if st.ever_held.contains(&k) {
+                st.close_bank_accepted_after_activity += 1;
+            }
+            if let Some(b0) = pre.banks.get(&k) {
+                for (ak, a) in &pre.accts {
+                    for p in &a.positions {
+                        if p.bank == k {
+                            let va = q_bits(p.a_bits) * &b0.asv;
+                            let vl = q_bits(p.l_bits) * &b0.lsv;
+                            if va >= threshold_0001() || vl >= threshold_0001() {
+                                out.push(finding(
+                                    "ledger:closed-bank-held",
+                                    format!("op#{} close_bank accepted for bank {} while account {} holds asset value {} / liability value {} (share values {} / {})", step.index, k, ak, q_str(&va), q_str(&vl), q_str(&b0.asv), q_str(&b0.lsv)),
+                                ));
+                            }
+                        }
+                    }
+                }
+            }
+        }
         return out;
     }
     // every instruction that closes a position abandons that slot's sub-dust residue (the other
